@@ -10,7 +10,7 @@ use serde_json::json;
 use std::collections::BTreeSet;
 use txtpp::Mode;
 
-pub const SIGMA_CLEAN: [&str; 20] = [
+pub const SIGMA_CLEAN: [&str; 22] = [
     "+TXTPP#temp sub/t3.out",
     "-TXTPP#temp ./t4.out",
     "-TXTPP#include missing.txt",
@@ -31,7 +31,12 @@ pub const SIGMA_CLEAN: [&str; 20] = [
     "-TXTPP#temp h.txtpp.txt",
     "TXTPP#temp keep.txt",
     "-TXTPP#temp lnk.out",
+    "TXTPP#after ghost.txt",
+    "-TXTPP#temp ../m/t5.out",
 ];
+
+/// a temp target outside the base directory (in the scratch directory next to it)
+const OUTSIDE: &str = "m/t5.out";
 
 /// temp target that is a (dangling) symbolic link: the file behind it is what build creates and clean removes
 const LINK_TARGET: (&str, &str) = ("lnk.out", "sub/real2.out");
@@ -57,6 +62,7 @@ fn reset_tree(b: &Bench, help: &Tree, src: &[u8]) {
     let _ = std::fs::remove_dir_all(&b.base);
     std::fs::create_dir_all(&b.base).unwrap();
     std::fs::create_dir_all(b.scratch.p("m")).unwrap();
+    let _ = std::fs::remove_file(b.scratch.p(OUTSIDE));
     write_tree(&b.base, help);
     std::fs::write(b.base.join(SRC), src).unwrap();
     set_sentinel(&b.base);
@@ -139,6 +145,9 @@ pub fn check_source(rep: &Report, prop: &str, b: &Bench, help: &Tree, src: &[u8]
             if !created.contains(&p) || how != "deleted" {
                 rep.violate("clean-touched-other-file", format!("source {:?}: clean {how} {p}, which build did not generate", show(src)), rj(prop, src, "build-clean"));
             }
+        }
+        if b.scratch.p(OUTSIDE).exists() {
+            rep.violate("clean-incomplete", format!("source {:?}: build then clean leaves the temp target ../{OUTSIDE} (outside the base directory)", show(src)), rj(prop, src, "build-clean"));
         }
         if rb.v == V::Ok {
             rep.add("build_then_clean_round_trips", 1);
@@ -391,11 +400,14 @@ pub fn run_into(rep: &Report, prop: &str) {
     let deep = rep.thorough() && (prop == "C07" || prop == "C10");
     let help = helpers_clean();
     rep.set("source_enumeration_alphabet", json!(SIGMA_CLEAN));
-    rep.set("source_enumeration_bound", json!(format!("all sources of <= {max_len} lines over the 20-line alphabet above (directive look-alikes as continuation lines of multi-line directives, temp directives naming pre-existing files, txtpp files, a symbolic link){}", if deep { "; all sources of 5 lines over its first 14 lines" } else { "" })));
+    rep.set("source_enumeration_bound", json!(format!("all sources of <= {max_len} lines over the 22-line alphabet above (directive look-alikes as continuation lines of multi-line directives, temp directives naming pre-existing files, txtpp files, a symbolic link){}", if deep { "; all sources of 5 lines over its first 14 lines" } else { "" })));
     if prop == "C08" {
         two_pass_prestates(rep);
     }
-    let passes: Vec<(usize, usize, usize)> = if deep { vec![(SIGMA_CLEAN.len(), max_len, 0), (14, 5, 5)] } else { vec![(SIGMA_CLEAN.len(), max_len, 0)] };
+    // the last two lines of the alphabet (an `after` of a missing file, a temp target outside the base directory) concern
+    // C07/C10 only: the quick tier of the other properties enumerates over the first 20 lines
+    let alpha_all = if !rep.thorough() && matches!(prop, "C06" | "C08" | "C09") { 20 } else { SIGMA_CLEAN.len() };
+    let passes: Vec<(usize, usize, usize)> = if deep { vec![(alpha_all, max_len, 0), (14, 5, 5)] } else { vec![(alpha_all, max_len, 0)] };
     for (alpha, len, only_len) in passes {
         sharded_dyn(rep, par_threads(), |_k, _n, next, rep| {
             let b = Bench::new(&help);
